@@ -33,7 +33,7 @@ type C20Case struct {
 	Delays  string      `json:"delays"` // VERIF_WATCH_DELAYS for the watcher process
 }
 
-const c20Rule = "a package of 1-3 model files importing a sibling package, watched by `yardl generate --watch` (built with the verif tag) x a generated schedule of 2-7 saves (valid change, YAML syntax error, rule violation, file deleted / created, touch without change, the imported package's manifest broken by an import that cannot be fetched / repaired; the last state valid) separated by gaps of 0-120 ms x per-regeneration delays of 0/60/350 ms injected at the hook inside generateImpl, so that an early regeneration can be made to outlast later ones. oracle: after the last save and quiescence (no output change for 1.2 s) the watcher is still running and the output tree equals that of a one-shot `yardl generate` of the final contents. non-trivial = a regeneration was delayed while later saves arrived (or regenerations overlapped in time per the hook log), or an invalid intermediate state occurred; distinct = hash of the schedule"
+const c20Rule = "a package of 1-3 model files importing a sibling package, watched by `yardl generate --watch` (built with the verif tag) x a generated schedule of 2-7 saves (valid change, YAML syntax error, rule violation, file deleted / created, touch without change, the imported package's manifest broken by an import that cannot be fetched / repaired; the last state valid, the last change a save, a creation or a deletion) separated by gaps of 0-120 ms x per-regeneration delays of 0/60/350 ms injected at the hook inside generateImpl, so that an early regeneration can be made to outlast later ones. oracle: after the last save and quiescence (no output change for 1.2 s) the watcher is still running and the output tree equals that of a one-shot `yardl generate` of the final contents. non-trivial = a regeneration was delayed while later saves arrived (or regenerations overlapped in time per the hook log), or an invalid intermediate state occurred; distinct = hash of the schedule"
 
 const c20Manifest = "namespace: Mdl\nimports:\n  - ../base\npython:\n  outputDir: ../out/py\njson:\n  outputDir: ../out/json\ncpp:\n  sourcesOutputDir: ../out/cpp\n  generateHDF5: false\n  generateCMakeLists: false\n"
 
@@ -57,6 +57,7 @@ func genC20(t *rapid.T) C20Case {
 	c := C20Case{Initial: model.Files{"_package.yml": c20Manifest, "a.yml": watchModel(0, 0), "b.yml": "Other: !record\n  fields:\n    x: int\n",
 		"../base/_package.yml": c20BaseManifest, "../base/base.yml": "BaseRec: !record\n  fields:\n    v: int\n"}}
 	baseBroken := false
+	aInvalid := false // a.yml currently holds an invalid model
 	n := rapid.IntRange(2, 7).Draw(t, "edits")
 	hasB := true
 	for i := 0; i < n; i++ {
@@ -70,10 +71,24 @@ func genC20(t *rapid.T) C20Case {
 			}
 		}
 		if last {
-			kinds = []string{"valid"}
+			// the final state must be valid: a save of a valid model, or b.yml (which nothing
+			// refers to) removed or created
+			kinds = []string{"valid", "valid", "valid", "create-b"}
+			if hasB {
+				kinds = append(kinds, "delete-b")
+			}
+			if aInvalid {
+				kinds = []string{"valid"}
+			}
 		}
 		k := rapid.SampledFrom(kinds).Draw(t, "editKind")
 		e := WatchEdit{Kind: k, File: "a.yml", GapMs: rapid.SampledFrom([]int{0, 1, 3, 8, 20, 60, 120}).Draw(t, "gap")}
+		switch k {
+		case "syntax-error", "rule-violation":
+			aInvalid = true
+		case "valid":
+			aInvalid = false
+		}
 		switch k {
 		case "valid":
 			e.Content = watchModel(rapid.IntRange(0, 6).Draw(t, "variant"), rapid.IntRange(0, 3).Draw(t, "extra"))
